@@ -34,3 +34,41 @@ Proof.
     destruct (IH Hin) as [e He]. rewrite He. eexists; reflexivity.
 Qed.
 Print Assumptions C18_outside_candidate_fails.
+
+(* ---- the concrete path-level model (Model/Root.v: cpath, tfs, walk, root_open), executed against bkl -r on every run ---- *)
+From Bkl Require Import Proofs.RootProofs.
+Local Open Scope string_scope.
+Local Open Scope list_scope.
+
+(* whatever opening a path through the root returns is the content of a file UNDER the root (component-wise), whatever
+   the links along the way say *)
+Theorem C18_reads_only_inside : forall fs root fuel p d, root_open fuel fs root p = Ok d ->
+  exists q, is_prefix root q = true /\ tfs_lookup fs q = Some (TFile (Ok d)).
+Proof. exact root_open_inside. Qed.
+Print Assumptions C18_reads_only_inside.
+
+(* a path that is not under the root is refused *)
+Theorem C18_outside_refused : forall fs root fuel p, is_prefix root p = false -> root_open fuel fs root p = Err EOther.
+Proof. exact root_open_outside. Qed.
+Print Assumptions C18_outside_refused.
+
+(* the result - success, failure and content - is independent of the content, kind and existence of everything that is
+   not under the root *)
+Theorem C18_outside_irrelevant : forall root fs1 fs2 fuel p,
+  (forall q, is_prefix root q = true -> tfs_lookup fs1 q = tfs_lookup fs2 q) ->
+  root_open fuel fs1 root p = root_open fuel fs2 root p.
+Proof. exact root_open_indep. Qed.
+Print Assumptions C18_outside_irrelevant.
+
+(* "under" is component-wise: a sibling directory whose name extends the root's is outside; and a relative link from
+   inside the root to it is an escape *)
+Example C18_sibling_example :
+  let fs := [(["x"], TDir); (["x"; "root"], TDir); (["x"; "root2"], TDir);
+             (["x"; "root2"; "decoy.yaml"], TFile (Ok (VStr "S1")));
+             (["x"; "root"; "a.yaml"], TLink false ["x"; "root2"; "decoy.yaml"]);
+             (["x"; "root"; "b.yaml"], TFile (Ok (VStr "inside")));
+             (["x"; "root"; "c.yaml"], TLink false ["x"; "root"; "b.yaml"])] in
+  root_open 64 fs ["x"; "root"] ["x"; "root"; "a.yaml"] = Err EOther /\
+  root_open 64 fs ["x"; "root"] ["x"; "root2"; "decoy.yaml"] = Err EOther /\
+  root_open 64 fs ["x"; "root"] ["x"; "root"; "c.yaml"] = Ok (VStr "inside").
+Proof. repeat split; reflexivity. Qed.
